@@ -161,6 +161,20 @@ func contractEffects(fn *ssa.Function, fc *FuncContract, pkg *PkgInfo) ModSet {
 		ptypes[p.Name()] = p.Type()
 	}
 	for _, me := range fc.Modifies {
+		if me.Kind == "field" && me.Args[0].Kind == "id" && me.Args[0].Name == "ghost" && pkg != nil {
+			own := false
+			if pkg.Contracts != nil {
+				for _, g := range pkg.Contracts.GhostVars {
+					own = own || g.Name == me.Name
+				}
+			}
+			if own {
+				ms.prefixes[ghostPrefix(pkg, me.Name)] = true
+			} else {
+				ms.prefixes["Ghost."] = true
+			}
+			continue
+		}
 		if p, ok := staticCEPrefix(me, ptypes); ok {
 			ms.prefixes[p] = true
 		} else {
@@ -253,6 +267,22 @@ func (x *Exec) calleeModSet(fr *Frame, c *ssa.CallCommon) ModSet {
 	if c.IsInvoke() {
 		if ic := x.vc.uni.ifaceContract(c); ic != nil && ic.Pure {
 			return newModSet()
+		} else if ic != nil && !ic.ModAll {
+			ms := newModSet()
+			ms.allocs = true
+			sig := c.Method.Type().(*types.Signature)
+			ptypes := map[string]types.Type{"self": c.Value.Type()}
+			for i := 0; i < sig.Params().Len(); i++ {
+				ptypes[sig.Params().At(i).Name()] = sig.Params().At(i).Type()
+			}
+			for _, me := range ic.Modifies {
+				if p, ok := staticCEPrefix(me, ptypes); ok {
+					ms.prefixes[p] = true
+				} else {
+					ms.all = true
+				}
+			}
+			return ms
 		}
 		if c.Method.FullName() == "(io.Writer).Write" {
 			ms := newModSet()
@@ -279,6 +309,7 @@ func (x *Exec) call(fr *Frame, st *State, c *ssa.CallCommon, pos token.Pos, site
 	if bi, ok := c.Value.(*ssa.Builtin); ok {
 		return x.builtin(fr, st, bi, c, pos, site)
 	}
+	x.callsiteAsserts(fr, st, c, site)
 	var args []Value
 	for _, a := range c.Args {
 		args = append(args, x.get(fr, st, a))
@@ -531,17 +562,29 @@ func (x *Exec) havocCallMS(fr *Frame, st *State, what string, resT types.Type, m
 // ---- contract calls
 
 func (x *Exec) contractCall(fr *Frame, st *State, callee *ssa.Function, fc *FuncContract, pkg *PkgInfo, args []Value, pos token.Pos, resT types.Type) Value {
-	name := callee.Name()
+	var names []string
+	var ptypes []types.Type
+	for _, p := range callee.Params {
+		names = append(names, p.Name())
+		ptypes = append(ptypes, p.Type())
+	}
+	return x.contractCallSig(fr, st, callee.Name(), names, ptypes, callee.Signature, callee, fc, pkg, args, pos, resT)
+}
+
+// contractCallSig applies a contract at a call site: preconditions become obligations, the declared frame is
+// havocked, the postconditions are assumed. callee is nil for interface methods (names/ptypes describe the
+// receiver, called "self", followed by the method's parameters).
+func (x *Exec) contractCallSig(fr *Frame, st *State, name string, names []string, ptypes []types.Type, sig *types.Signature, callee *ssa.Function, fc *FuncContract, pkg *PkgInfo, args []Value, pos token.Pos, resT types.Type) Value {
 	env := &CEnv{x: x, fr: fr, st: st, pkg: pkg, vars: map[string]Value{}, mode: x.m()}
-	for i, p := range callee.Params {
+	for i, pn := range names {
 		if i < len(args) {
 			a := args[i]
-			a.T = p.Type()
-			env.vars[p.Name()] = a
+			a.T = ptypes[i]
+			env.vars[pn] = a
 		}
 	}
 	// receiver non-nil
-	if callee.Signature.Recv() != nil && len(args) > 0 && args[0].K == KPtr {
+	if callee != nil && callee.Signature.Recv() != nil && len(args) > 0 && args[0].K == KPtr {
 		o := x.vc.oblige("pre@"+name, Implies(st.Reach, Not(Eq(args[0].Loc.Root, nilRef))), x.posOf(fr.fn, pos), "receiver of "+name+" is non-nil")
 		_ = o
 		x.vc.assume(Implies(st.Reach, Not(Eq(args[0].Loc.Root, nilRef))))
@@ -553,7 +596,7 @@ func (x *Exec) contractCall(fr *Frame, st *State, callee *ssa.Function, fc *Func
 		o.Clause = rq.Src
 		x.vc.assume(Implies(st.Reach, g))
 	}
-	if pureScalarFn(callee, fc) {
+	if callee != nil && pureScalarFn(callee, fc) {
 		// deterministic: one uninterpreted application, constrained by the ensures
 		return x.pureCallValue(fr, st, callee, fc, pkg, args)
 	}
@@ -578,7 +621,7 @@ func (x *Exec) contractCall(fr *Frame, st *State, callee *ssa.Function, fc *Func
 	} else {
 		res = x.havocValue(st, resT, "r."+name)
 	}
-	post := &CEnv{x: x, fr: fr, st: st, old: &pre, pkg: pkg, vars: env.vars, mode: x.m(), hasResult: true, result: res, sig: callee.Signature}
+	post := &CEnv{x: x, fr: fr, st: st, old: &pre, pkg: pkg, vars: env.vars, mode: x.m(), hasResult: true, result: res, sig: sig}
 	if fc.Where != nil {
 		post.whereExpr = fc.Where.Expr
 	}
